@@ -3,7 +3,10 @@
    Model/Emit.v; ADDR_FUNCS_NAMES is the generated constant of
    Gen/excelformula.v. *)
 From Coq Require Import ZArith List.
-From PV Require Import Lib.Py Model.Syntax Model.Emit Model.Scan Proofs.C04.
+From PV Require Import Lib.Py.
+From PV Require Import Model.Graph Model.ReadTrace.
+From PV Require Import Proofs.C01Base Proofs.C01Inv Proofs.C01 Proofs.C04Trace Proofs.C04Graph.
+From PV Require Import Model.Syntax Model.Emit Model.Scan Proofs.C04.
 From PV Require Gen.excelformula.
 Import ListNotations.
 Open Scope Z_scope.
@@ -33,3 +36,185 @@ Theorem C04_addr_names :
   is_addr_name n_R = true /\ is_addr_name n_C = true /\ is_addr_name n_REF = true.
 Proof. exact addr_names_ok. Qed.
 Print Assumptions C04_addr_names.
+
+(* ===================================================================== *)
+(* The graph half, over the machine model of ExcelCompiler (Model/Graph.v: a
+   workbook W is a DAG in topological presentation; wb_deps W n = the declared
+   precedents of the formula cell n / the member cells of the range node n;
+   build = _gen_graph / _make_cells / _process_gen_graph; eval = _evaluate /
+   _evaluate_range) and its instrumented copy Model/ReadTrace.v.
+
+   Vocabulary:
+     edge W p d          p is in wb_deps W d  (the dep_graph edge p -> d)
+     ancestor W a c      reflexive-transitive closure of edge: contains the
+                         membership paths  cell -> range node -> dependant
+     wf W                C01Base: precedents have smaller indices, inputs have
+                         none, range nodes are not inputs
+     spec W sem inp c    the from-scratch value of c under the inputs inp
+     eval_traced …       Graph.eval with a read trace: the pair (n, d) is
+                         recorded each time the computation of n asks for d
+     in_range W o        Evaluate n / Build n name a node of W (n < wb_n W);
+                         SetValue: no condition
+     ok_op, ok_history, inputs_exact, stored_ok, sem_nonblank: as in Props/C01.v *)
+
+(* C04_influence.  The formula meaning [sem n] of Graph.v receives the VALUES
+   OF THE DECLARED PRECEDENTS of n and nothing else — this typing is exactly
+   what C04_cover establishes for the emitted code (see C04_influence_env for
+   the same statement with the reading discipline as a hypothesis).  Then two
+   input assignments that agree on every input cell among the ancestors of c
+   give c the same value: the ancestors are a superset of the cells that can
+   influence c. *)
+Theorem C04_influence : forall W, wf W -> forall sem c inp1 inp2, (c < wb_n W)%nat ->
+  (forall a, wb_input W a = true -> ancestor W a c -> inp1 a = inp2 a) ->
+  spec W sem inp1 c = spec W sem inp2 c.
+Proof. exact influence_spec. Qed.
+Print Assumptions C04_influence.
+
+(* the same for a meaning [esem n env] that may look at the value of ANY node
+   (env), under the hypothesis that it looks only at the declared precedents
+   of n ([reads_declared]); without the hypothesis the statement is false
+   (Proofs/C04Example.v peek_influenced) *)
+Theorem C04_influence_env : forall W, wf W -> forall esem, reads_declared W esem ->
+  forall c inp1 inp2, (c < wb_n W)%nat ->
+  (forall a, wb_input W a = true -> ancestor W a c -> inp1 a = inp2 a) ->
+  espec W esem inp1 c = espec W esem inp2 c.
+Proof. exact influence_env. Qed.
+Print Assumptions C04_influence_env.
+
+(* every meaning of Graph.v's type is such an environment meaning, with the same
+   from-scratch values *)
+Theorem C04_sem_reads_declared : forall W sem, wf W ->
+  reads_declared W (esem_of W sem) /\
+  forall inp n, (n < wb_n W)%nat -> espec W (esem_of W sem) inp n = spec W sem inp n.
+Proof. exact sem_reads_declared. Qed.
+Print Assumptions C04_sem_reads_declared.
+
+(* lifted to the machine through C01's coherence theorem: after any admissible
+   history, an admissible write to a cell that is NOT an ancestor of c leaves
+   evaluate c unchanged (side conditions of C01: sem_nonblank, stored_ok and
+   late_ok inside ok_op — each needed by the implementation, Refuted/C01_*.v) *)
+Theorem C04_influence_machine : forall W sem, wf W -> sem_nonblank W sem -> stored_ok W sem ->
+  inputs_exact W (wb_inp0 W) ->
+  forall h, ok_history W sem (ok_op W) (init W) h ->
+  let s := fst (Graph.run W sem (init W) h) in
+  forall a v c, ok_op W s (SetValue a v) -> (c < wb_n W)%nat -> ~ ancestor W a c ->
+    snd (step W sem (fst (step W sem s (SetValue a v))) (Evaluate c))
+    = snd (step W sem s (Evaluate c)).
+Proof. exact influence_machine. Qed.
+Print Assumptions C04_influence_machine.
+
+(* ancestor = the node itself or a strict ancestor in the sense of C01 *)
+Theorem C04_ancestor_anc : forall W a c, ancestor W a c <-> a = c \/ anc W a c.
+Proof. exact ancestor_anc. Qed.
+Print Assumptions C04_ancestor_anc.
+
+(* C04_edges.  After ANY history of evaluate / build / set_value (the only
+   condition: evaluate and build name nodes of the workbook), every declared
+   precedent — and every member cell of a declared range node — p of a built
+   node f is built, precedes f, and the dependency graph has the edge p -> f
+   (f is among dep_graph.successors(p)); every node that an evaluate or build
+   of the history asked for is built. *)
+Theorem C04_edges : forall W sem, wf W -> forall h, Forall (in_range W) h ->
+  let s := fst (Graph.run W sem (init W) h) in
+  (forall f p, st_built s f = true -> edge W p f ->
+     (p < f)%nat /\ (f < wb_n W)%nat /\ st_built s p = true /\ In f (succs W (st_built s) p))
+  /\ (forall o n, In o h -> requested o n -> st_built s n = true).
+Proof. exact edges_built. Qed.
+Print Assumptions C04_edges.
+
+(* ... hence every ancestor of a built node is built *)
+Theorem C04_ancestors_built : forall W sem, wf W -> forall h, Forall (in_range W) h ->
+  let s := fst (Graph.run W sem (init W) h) in
+  forall c a, st_built s c = true -> ancestor W a c -> st_built s a = true.
+Proof. exact ancestors_built. Qed.
+Print Assumptions C04_ancestors_built.
+
+(* the converse reading: what the evaluation READS.  The instrumented
+   evaluation returns the same state and value as Graph.eval (no hypothesis) … *)
+Theorem C04_trace_erasure : forall W sem f c n, fst (eval_traced W sem f c n) = eval W sem f c n.
+Proof. exact evalT_eval. Qed.
+Print Assumptions C04_trace_erasure.
+
+(* … every (reader, read) pair of its trace is an edge read -> reader — a
+   declared precedent of the reader, or a member of the range node that reads —
+   the reader is the evaluated node or one of its ancestors, and the cell read
+   is an ancestor of the evaluated node … *)
+Theorem C04_trace_edges : forall W sem f c n r d, In (r, d) (snd (eval_traced W sem f c n)) ->
+  edge W d r /\ ancestor W r n /\ ancestor W d n.
+Proof. exact evalT_edges. Qed.
+Print Assumptions C04_trace_edges.
+
+(* … and the trace is not vacuous: a formula / range node that is computed
+   (not an input, nothing cached) reads every one of its precedents / members,
+   a node that is cached or an input reads nothing *)
+Theorem C04_trace_complete : forall W sem f (c : cache) n,
+  (wb_input W n = false -> c n = VNone ->
+     forall d, In d (wb_deps W n) -> In (n, d) (snd (eval_traced W sem (S f) c n)))
+  /\ (wb_input W n = true \/ c n <> VNone -> snd (eval_traced W sem f c n) = []).
+Proof. exact evalT_complete_cached. Qed.
+Print Assumptions C04_trace_complete.
+
+(* … and the trace contains EVERY cache entry the evaluation depends on: a
+   cache that agrees with c1 on the evaluated node and on every cell of the
+   trace gives the same value and the same trace (so, with C04_trace_edges, the
+   value of n depends on the cache only through n and edges below n) *)
+Theorem C04_trace_determines : forall W sem f (c1 c2 : cache) n, c1 n = c2 n ->
+  (forall r d, In (r, d) (snd (eval_traced W sem f c1 n)) -> c1 d = c2 d) ->
+  snd (eval W sem f c2 n) = snd (eval W sem f c1 n)
+  /\ snd (eval_traced W sem f c2 n) = snd (eval_traced W sem f c1 n).
+Proof. exact trace_determines. Qed.
+Print Assumptions C04_trace_determines.
+
+(* the same for whole histories (evaluate = _gen_graph, which evaluates the new
+   range nodes, then _evaluate): erasing the traces gives Graph.run, and every
+   pair read by any operation is an edge *)
+Theorem C04_run_traced : forall W sem h s,
+  (fst (run_traced W sem s h), map fst (snd (run_traced W sem s h))) = Graph.run W sem s h
+  /\ forall v t r d, In (v, t) (snd (run_traced W sem s h)) -> In (r, d) t -> edge W d r.
+Proof. exact run_traced_ok. Qed.
+Print Assumptions C04_run_traced.
+
+(* C04_reads_are_edges = C04_cover composed with the graph: [node a] is the node
+   that the address text a names (cell_map), [fm n] the formula of the formula
+   cell n.  If the declared precedents of every formula cell contain the nodes
+   named by [needed] of its formula (declared_needed), then every _C_/_R_ read
+   of the emitted code of n is the address of a node p with an edge p -> n
+   (RExact), or a range computed by the intersection operator from addresses
+   of such nodes (RWithin; never RNew). *)
+Theorem C04_reads_are_edges : forall W node fm, declared_needed W node fm ->
+  forall n e, fm n = Some e -> refs_written (emit CtxTop e) = true ->
+  forall r, In r (reads (emit CtxTop e)) -> ref_covered (fun p => edge W p n) node r.
+Proof. exact reads_are_edges. Qed.
+Print Assumptions C04_reads_are_edges.
+
+(* … and composed with C04_edges: once n is built, after any history, the node
+   read is built and the dependency graph has the edge read -> n *)
+Theorem C04_reads_are_graph_edges : forall W sem node fm, wf W -> declared_needed W node fm ->
+  forall h, Forall (in_range W) h ->
+  let s := fst (Graph.run W sem (init W) h) in
+  forall n e, fm n = Some e -> refs_written (emit CtxTop e) = true -> st_built s n = true ->
+  forall r, In r (reads (emit CtxTop e)) ->
+    ref_covered (fun p => st_built s p = true /\ In n (succs W (st_built s) p)) node r.
+Proof. exact reads_are_graph_edges. Qed.
+Print Assumptions C04_reads_are_graph_edges.
+
+(* the converse on the machine: when the declared precedents of a formula cell
+   are ONLY nodes named by [needed], every read its evaluation performs is the
+   node of one of its needed addresses *)
+Theorem C04_traced_reads_needed : forall W sem node fm, declared_only_needed W node fm ->
+  forall f c m n p e, In (n, p) (snd (eval_traced W sem f c m)) -> fm n = Some e ->
+    exists a, In a (needed e) /\ node a = Some p.
+Proof. exact traced_reads_needed. Qed.
+Print Assumptions C04_traced_reads_needed.
+
+(* a computed read (RWithin l): when the range nodes have their cells as members
+   ([cells a m]: the cell node m lies in the range named a), every cell of a
+   range X that lies inside each operand (C11_intersection) reaches n through
+   a declared range that contains it:  m -> p -> n *)
+Theorem C04_within_path : forall W node (cells : list Z -> nat -> Prop) n l,
+  ref_covered (fun p => edge W p n) node (RWithin l) ->
+  (forall a p m, In a l -> node a = Some p -> cells a m -> edge W m p) ->
+  forall (X : nat -> Prop), (forall m, X m -> forall a, In a l -> cells a m) ->
+  forall a m, In a l -> X m -> exists p, node a = Some p /\ edge W m p /\ edge W p n.
+Proof. exact within_path. Qed.
+Print Assumptions C04_within_path.
